@@ -45,6 +45,8 @@ def cases(tier, seed):
                         if tier == "quick" and ((rU + rV + (init if isinstance(init, int) else len(init)) + li) % 2):
                             continue
                         out.append(dict(ubm=u, labels=li, rU=rU, rV=rV, init=init, K=K_IT[tier], seed=seed))
+                        if li in (2, 4) and init in (1, "pattern"):
+                            out.append(dict(ubm=u, labels=li, rU=rU, rV=rV, init=init, K=K_IT[tier], seed=seed, shared=True))
     return out
 
 
@@ -111,6 +113,11 @@ def run_case(case):
     C, D = ubm.means.shape
     y = np.array(LABELS[case["labels"]])
     X = _stats(ubm, len(y), s, o, frac=case["labels"] % 2 == 1, dup=("class" if case["labels"] == 0 else case["labels"] in (2, 3)))
+    if case.get("shared"):
+        # the very same statistics object listed under two classes (one recording attributed to two speakers)
+        for a_, b_ in ((0, 1), (3, 5), (2, 4)):
+            if b_ < len(y) and y[a_] != y[b_]:
+                X[b_] = X[a_]
     mvec = np.asarray(ubm.means, float).ravel()
     var = np.asarray(ubm.variances, float).ravel()
     classes = sorted(set(y.tolist()))
@@ -254,10 +261,16 @@ def run_case(case):
     rose.append(L[1] - L[0] > 1e-9)
     manual = dict(U=np.array(m.U, float), V=np.array(m.V, float), D=np.array(m.D, float))
     # ---- fit(em_iterations=K) == the manual sequence (list input, and a bag with 2 partitions)
-    for how in ("list", "bag", "bag on serialising executor"):
+    for how in ("list", "bag", "bag on serialising executor", "list with the labels in a pandas Series whose index is shuffled", "list with the labels in a Python list"):
         f = _machine(case, ubm, s, K)
-        data = copy.deepcopy(X) if how == "list" else db.from_sequence(copy.deepcopy(X), npartitions=2)
-        if how == "bag on serialising executor":
+        data = copy.deepcopy(X) if how.startswith("list") else db.from_sequence(copy.deepcopy(X), npartitions=2)
+        if "pandas" in how:
+            import pandas as pd
+
+            f.fit(data, pd.Series(y.copy(), index=[(3 * i + 1) % len(y) for i in range(len(y))] if len(y) % 3 else list(range(len(y)))[::-1]))
+        elif "Python list" in how:
+            f.fit(data, [int(v) for v in y])
+        elif how == "bag on serialising executor":
             # every task on a pickled copy of the machine: only returned values reach the caller
             from mc import sched
 
@@ -287,5 +300,5 @@ def run_case(case):
     c.transitions += 1
     c.states = 3 * K
     c.traces = c.transitions
-    sig = "%d|%d|%d|%d|%s" % (case["ubm"], case["labels"], case["rU"], case["rV"], case["init"])
+    sig = "%d|%d|%d|%d|%s|%s" % (case["ubm"], case["labels"], case["rU"], case["rV"], case["init"], case.get("shared"))
     return c.result(nontrivial=all(rose), sig=sig)
